@@ -40,6 +40,8 @@ enum State {
 	MidGracefulRestart(u64),
 	Deleted,
 	QueuedControls,
+	/// a graceful stop with this grace is pending (timer armed) when `delete_now()` is called, just before the quit
+	GracefulStopThenDeleteNow(u64),
 }
 
 #[derive(Clone, Debug)]
@@ -91,6 +93,7 @@ fn gen(rng: &mut Rng, k: usize) -> Scn {
 				State::MidGracefulRestart(150),
 				State::Deleted,
 				State::QueuedControls,
+				State::GracefulStopThenDeleteNow(400),
 			]),
 			hold_clone: rng.chance(1, 3),
 		})
@@ -210,6 +213,7 @@ pub fn run_one(args: &ShardArgs, rng: &mut Rng, rep: &mut Report, k: usize) {
 							}
 						}
 						if phase == "prep" {
+							let mut delete_now_later: Vec<Job> = vec![];
 							for (job, spec) in jh.lock().unwrap().iter() {
 								match spec.state {
 									State::Finished => {
@@ -221,6 +225,10 @@ pub fn run_one(args: &ShardArgs, rng: &mut Rng, rep: &mut Report, k: usize) {
 									State::Deleted => {
 										job.delete();
 									}
+									State::GracefulStopThenDeleteNow(g) => {
+										job.stop_with_signal(Signal::User2, Duration::from_millis(g));
+										delete_now_later.push(job.clone());
+									}
 									State::QueuedControls => {
 										for _ in 0..20 {
 											job.signal(Signal::User1);
@@ -230,6 +238,14 @@ pub fn run_one(args: &ShardArgs, rng: &mut Rng, rep: &mut Report, k: usize) {
 									_ => {}
 								}
 							}
+							if !delete_now_later.is_empty() {
+								// the urgent controls of delete_now must find the grace timer armed: give the graceful stop
+								// time to be processed first
+								tokio::time::sleep(Duration::from_millis(40)).await;
+								for job in delete_now_later {
+									job.delete_now();
+								}
+							}
 						}
 						if phase == "quit" {
 							match scn.quit {
@@ -237,6 +253,9 @@ pub fn run_one(args: &ShardArgs, rng: &mut Rng, rep: &mut Report, k: usize) {
 								Quit::Graceful { sig, grace_ms } => action.quit_gracefully(Signal::from(sig), Duration::from_millis(grace_ms)),
 							}
 							*qr.lock().unwrap() = Some(mono_ns());
+							// the harness lets go of its own job handles: from here on only Watchexec (and the clones
+							// deliberately held elsewhere) refer to the jobs
+							jh.lock().unwrap().clear();
 						}
 					}
 					action
@@ -371,10 +390,24 @@ pub fn run_one(args: &ShardArgs, rng: &mut Rng, rep: &mut Report, k: usize) {
 				// grandchildren are only promised to be gone after a graceful quit of a grouped / session command
 				if scn.quit != Quit::Abort && spec.map_or(false, |j| j.wrap != Wrap::Plain) {
 					let leader_exits = spec.map_or(false, |j| j.leader != React::Ignore);
-					let member_ignores = spec.and_then(|j| j.grandchildren.first()).map_or(false, |g| *g == React::Ignore) || true;
-					let _ = member_ignores;
+					// which member survived: one that ignores signals (it can only die by a kill sent to the group) or one
+					// that obeys them (then it was never even signalled)
+					let gi: usize = s.tag.rsplit(".g").next().and_then(|x| x.parse::<usize>().ok()).map_or(0, |n| n / 10);
+					let member_obeys = spec.and_then(|j| j.grandchildren.get(gi)).map_or(false, |g| *g != React::Ignore);
+					// (a member forked after the signal went out is in the same position as one that ignores it; what sets
+					// the other case apart is that not even the leader was signalled)
+					let leader_tag = format!("j{ji}");
+					let leader_signalled = lines.iter().any(|l| l.tag == leader_tag && l.ev.starts_with("signal"));
+					let _ = member_obeys;
+					let how = if !leader_signalled {
+						"nobody-was-signalled"
+					} else if leader_exits {
+						"leader-exited-on-signal"
+					} else {
+						"leader-killed-at-expiry"
+					};
 					rep.violation(
-						&format!("C08/survivor/{manner}/{wrap}/group-member/{}", if leader_exits { "leader-exited-on-signal" } else { "leader-killed-at-expiry" }),
+						&format!("C08/survivor/{manner}/{wrap}/group-member/{how}"),
 						&format!("process {} ({}) of job {ji}'s process group is still alive 2 s after the graceful quit", s.pid, s.tag),
 						wit(),
 					);
